@@ -100,6 +100,15 @@ package sample
 //@   assert-at call (*Rand).Float32 #1 : s.rng != nil && arg0 == s.rng
 //@   assert-at call v2.Float32 #1 : s.rng == nil
 //@   loop 1 invariant forall k int :: 0 <= k && k < len(tokens) ==> 0 <= tokens[k].id && tokens[k].id < ghost_vocab
+// "the returned token belongs to the set those filters define": top-p and min-p are defined on the
+// tokens in DESCENDING order (top-p cuts a prefix of the cumulative mass, min-p takes ts[0] as the
+// maximum and cuts at the first token below the threshold). The order comes from topK's sort, which
+// therefore runs before either filter whatever the parameters are (temperature and softmax are
+// monotone and keep it; that is not proved). Added after seeded change C18-seed2.
+//@   ghost-at entry : ghost_sorted := 0
+//@   ghost-at after call topK : ghost_sorted := 1
+//@   assert-at call topP : ghost_sorted == 1
+//@   assert-at call minP : ghost_sorted == 1
 
 //@ func topK
 //@   requires len(ts) >= 1
